@@ -161,7 +161,22 @@ def check(run):
             first = [x for x in walk(n['cond']) if x['k'] == 'member' and x.get('name') == 'm_dont_fragment']
             dom = bool(first) and st.cfg.dominates(st.cfg.node_block(first[0]), st.cfg.node_block(w))
             run.check(dom, 'R5', 'df-test-dominates-wire', '%s: %s' % (st.norm, q.callee_name(w).split('::')[-1]), st.loc(w), 'a datagram reaches the wire without having passed the don\'t-fragment test', 'dominated by the failed DF test')
-    engines.r2_writer_table(run, B + '::m_dont_fragment', {B + '::set_option': 'the socket option'}, required=[B + '::set_option'])
+    run.clause('the don\'t-fragment option belongs to the descriptor: udp close(ec) clears it on every path (a re-opened socket has no option set) and the move constructor clears it in the source; probing (IP_PMTUDISC_PROBE) sets it like IP_PMTUDISC_DO')
+    ucl = fx.fn1(U + '::close', '(boost::system::error_code &)')
+    run.touch(ucl)
+    dfc = [a.site for a in q.field_accesses(ucl, {B + '::m_dont_fragment'}) if a.kind == 'assign' and q.strip_casts(a.site['rhs']).get('v') is False]
+    run.check(bool(dfc) and q.on_all_paths(ucl, dfc), 'R7', 'df-goes-with-the-descriptor', U + '::close', ucl.loc(),
+              'close(ec) leaves m_dont_fragment set: a socket closed and opened again (open() closes first) still discards datagrams above the path MTU although the option was never set on the new descriptor', 'cleared on every path of close(ec)')
+    so_ = [f_ for f_ in fx.fn(B + '::set_option') if f_.tmpl != 'pattern' or True]
+    probe_ok = False
+    for f_ in so_:
+        for a in q.field_accesses(f_, {B + '::m_dont_fragment'}):
+            if a.kind == 'assign' and is_node(a.site) and q.strip_casts(a.site['rhs']).get('v') is True:
+                if any((lambda c_: c_ and c_[0] == '==' and q.int_value(c_[2]) == 3)(q.cmp_atom(g_)) and p_ for g_, p_ in q.guards_at(f_, a.site)):
+                    probe_ok = True
+    run.check(probe_ok, 'R5', 'df-probe-sets-flag', B + '::set_option', so_[0].loc() if so_ else '',
+              'IP_MTU_DISCOVER = IP_PMTUDISC_PROBE (3) does not set the don\'t-fragment flag (and clears one set with IP_PMTUDISC_DO): on Linux probing puts DF on every datagram, so an oversized datagram must be discarded', 'value == IP_PMTUDISC_PROBE sets the flag')
+    engines.r2_writer_table(run, B + '::m_dont_fragment', {B + '::set_option': 'the socket option', U + '::close': 'options go with the descriptor: a closed (and re-opened) socket has none', U + '::socket': 'the moved-from socket keeps no option'}, required=[B + '::set_option'])
     run.clause('only the don\'t-fragment option changes the flag: every write of m_dont_fragment in set_option is guarded by the option\'s LEVEL as well as its name (SO_OOBINLINE at SOL_SOCKET has the same number as IP_MTU_DISCOVER)')
     nw = 0
     for so in fx.fn(B + '::set_option', required=False):
